@@ -26,6 +26,8 @@ func checkC02(r *Run) {
 	ruleTypeSwitchNoShadow(r, p, "A5")
 	ruleDurationArithmetic(r, p, "DUR")
 	ruleA12Copy(r, p) // two loggers appending into one context array corrupt each other's fields (C05's rule)
+	ruleTLWPaths(r, p) // an event held by TriggerLevelWriter is released as the bytes that were written (C15's framing rules)
+	ruleTLWFrame(r, p)
 	ruleA4Confine(r, p)
 	ruleA4JSON(r, p) // strings decode back only if every escape denotes the character it replaces
 	if r.Tier == "thorough" {
